@@ -15,6 +15,7 @@ KEYS = {  # key in the subject -> label
     "acts only under the term it was elected in": "S16",
     "made a follower while waiting": "S14",
     "adopts that term": "S17",
+    "follows a truncated suffix": "S18",
     "verif: observation hooks": "HOOKS",
 }
 log = subprocess.check_output(["git", "-C", "/repo", "log", "--format=%h %s", "-n", "30"], text=True).splitlines()
